@@ -203,6 +203,10 @@ type FindingsFile struct {
 
 func LoadFindings(path string) (*FindingsFile, error) {
 	b, err := os.ReadFile(path)
+	if err != nil && os.IsNotExist(err) {
+		// a run that writes its evidence elsewhere (-verif <scratch dir>) still reads the committed list
+		b, err = os.ReadFile("/verif/known_findings.json")
+	}
 	if err != nil {
 		if os.IsNotExist(err) {
 			return &FindingsFile{}, nil
